@@ -118,9 +118,9 @@ pub fn generate(seed: u64, n: usize, _thorough: bool, _corpus: Option<&str>) -> 
     for i in 0..n {
         models.push(match i % 4 {
             0 => (knapsack(&mut r), "knapsack"),
-            1 => (gen_lp::model(&mut r, &LpCfg { doms: Doms::Integer, naming: 0, max_vars: 5, feasible_pct: 80, ..LpCfg::default() }).0, "integer"),
-            2 => (gen_lp::model(&mut r, &LpCfg { doms: Doms::Mixed, naming: 0, feasible_pct: 80, ..LpCfg::default() }).0, "mixed"),
-            _ => (gen_lp::model(&mut r, &LpCfg { doms: Doms::Integer, naming: 0, feasible_pct: 20, ..LpCfg::default() }).0, "integer-random-rhs"),
+            1 => (gen_lp::model(&mut r, &LpCfg { doms: Doms::Integer, naming: 0, max_vars: 5, feasible_pct: 80, allow_satisfy: false, ..LpCfg::default() }).0, "integer"),
+            2 => (gen_lp::model(&mut r, &LpCfg { doms: Doms::Mixed, naming: 0, feasible_pct: 80, allow_satisfy: false, ..LpCfg::default() }).0, "mixed"),
+            _ => (gen_lp::model(&mut r, &LpCfg { doms: Doms::Integer, naming: 0, feasible_pct: 20, allow_satisfy: false, ..LpCfg::default() }).0, "integer-random-rhs"),
         });
     }
     for (lm, fam) in &models {
